@@ -813,7 +813,11 @@ pub mod system_time_conversion {
             Err(e) => {
                 // Safely convert to i64 microseconds (negative), or return None.
                 let micros: u128 = e.duration().as_micros();
-                i64::try_from(micros).ok().and_then(i64::checked_neg)
+                // Negate in i128 so that i64::MIN (whose magnitude does not fit in an i64) is
+                // still converted.
+                i128::try_from(micros)
+                    .ok()
+                    .and_then(|micros| i64::try_from(-micros).ok())
             }
         }
     }
